@@ -548,7 +548,15 @@ Section Buffered.
   Definition with_core js x := {| core := x; dirs := dirs js; jobs := jobs js; nexth := nexth js |}.
 
   Inductive jitem :=
-  | JOpen (j f : N)                             (* project.open_job(sp_f) / signac.get_project(): a new object *)
+  | JOpen (j f : N) (prov : N)                  (* a new Job/Project object for job/project f; [prov] says how it was
+                                                   obtained (init_project, get_project with an absolute or relative path,
+                                                   signac.Project(relative / un-normalised path), ...).  MODELLING STEP: a
+                                                   document is identified by its project + job, i.e. the buffer and the
+                                                   files are keyed by the canonical absolute file name; the provenance
+                                                   of the handle and the working directory do not enter (see
+                                                   C05_provenance_irrelevant / C05_cwd_irrelevant); that the
+                                                   implementation canonicalises is checked by the correspondence *)
+  | JCwd (d : N)                                (* os.chdir(...) / `with job:` in the calling process *)
   | JOp (j : N) (p : path) (o : dop)            (* j.document<p>.<o>                                    *)
   | JRekey (j f' : N)                           (* j.statepoint = sp_f'  (directory is renamed)          *)
   | JRemove (j : N)                             (* j.remove()                                            *)
@@ -586,7 +594,8 @@ Section Buffered.
 
   Definition jstep (js : jstate) (it : jitem) : jstate * result json :=
     match it with
-    | JOpen j f => ({| core := core js; dirs := dirs js; jobs := nset j (f, None) (jobs js); nexth := nexth js |}, Ok JNull)
+    | JOpen j f _ => ({| core := core js; dirs := dirs js; jobs := nset j (f, None) (jobs js); nexth := nexth js |}, Ok JNull)
+    | JCwd _ => (js, Ok JNull)
     | JOp j p o =>
         match resolve_doc js j with
         | None => (js, Err EOther)
